@@ -445,8 +445,9 @@ def run_one(prop, tier, seed, proxy=True):
             "nontrivial": st.nonvacuous > 0, "result_digest": sim.log.digest()[:20]}
 
 
-def replay_ops(prop, ops):
-    seams.begin_run(stream(0, "rngseam"), "steady", None)
+def replay_ops(prop, ops, seed=0):
+    # same entropy stream and initial global-RNG state as the run the trace came from
+    seams.begin_run(stream(seed, "rngseam"), "steady", None)
     world = B.World(prop)
     stats = B.Stats()
     ctx = B.Ctx(prop, stats)
@@ -461,7 +462,7 @@ def replay_ops(prop, ops):
 
 
 def replay(prop, trace):
-    violation, index, log, stats = replay_ops(prop, trace["ops"])
+    violation, index, log, stats = replay_ops(prop, trace["ops"], seed=trace.get("seed", 0))
     return violation, index, log.digest()
 
 
